@@ -2,14 +2,19 @@
 import json
 from .. import common, gen, oracle, pool, pipefam, readerfam
 
-RULE = ("generated pairs whose group names differ by case, contain non-ASCII letters or look like numbers (so that sort orders differ), "
+RULE = ("generated pairs whose group names differ by case, contain non-ASCII letters, look like numbers (so that sort orders differ), are longer than 16 characters "
+        "or need more UTF-8 bytes than characters; gene names with non-ASCII letters; "
         "gene rows shuffled; real library stages -> (a) shapes and labels of every result file, every gene exactly once, names verbatim; "
         "(b) EVERY (gene, group, window, direction) query through DensityData + get_specific_slice, (c) the table helpers "
         "add_hdf5_indices_..._from_list_hdf5 / add_te_vals_..._from_list_hdf5 on a gene table in its own row order, incl. a TE name absent "
         "from a chromosome; each answer compared with the array cell of those labels and with the C01 value; non-trivial = >= 2 group names "
         "whose case-insensitive and code-point orders differ or non-ASCII; distinct = canonical JSON")
 NAME_POOLS = [["LTR", "ltr", "Ltr", "TIR", "dna", "DNA"], ["Éle", "ele", "Zeta", "alpha", "Ångström", "Beta"], ["hAT", "Helitron", "helitron", "HAT", "Mutator", "mutator"],
-              ["LTR", "TIR", "LINE", "Helitron", "DNA", "SINE"]]
+              ["LTR", "TIR", "LINE", "Helitron", "DNA", "SINE"],
+              # longer than the always-present label Total_TE_Density, and more UTF-8 bytes than characters
+              ["Rétrotransposon_Gypsy_é", "Rétrotransposon_Copia_è", "Élément_à_ADN_transposable", "転移因子の超科の名前その一二三四五六", "Ω" * 17, "Ж" * 19],
+              ["Transposable_Element_Family_Alpha", "Transposable_Element_Family_Alphb", "L" * 40, "L" * 39 + "M", "Sixteen_chars_xy ", "Sixteen_chars_xy"]]
+GENE_POOLS = [None, None, ["gène_%d", "Os01g0100%d00_α", "遺伝子%d番", "ÅÄÖ_%d_åäö"], None, ["gène_%d", "gêne_%d", "g%d_ñ"], None]
 
 
 def rename_groups(r, case, poolnames):
@@ -90,6 +95,10 @@ def failures(case, rep):
 def make_session(r, i):
     c = gen.gen_pair(r, max_chrom=2, max_genes=4, max_tes=14, min_chrom=1)
     c = rename_groups(r, c, NAME_POOLS[i % len(NAME_POOLS)])
+    gp = GENE_POOLS[i % len(GENE_POOLS)]
+    if gp:      # gene names with non-ASCII letters, all of (nearly) the same length
+        for k, g in enumerate(c["genes"]):
+            g["name"] = gp[k % len(gp)] % k
     r.shuffle(c["genes"])
     ws = gen.windows_list(*c["windows"])
     t0 = r.choice(c["tes"])
